@@ -21,6 +21,9 @@ use serde::{Deserialize, Serialize};
 use simrt::rng::{mix, Rng};
 use simwriter::{build_vec, exec, Fault, Mode, Res, WriterCfg};
 
+/// distinct (packet, mode, writer) hashes kept per worker thread; beyond it the count is a lower bound
+const DISTINCT_CAP_PER_THREAD: usize = 2_000_000;
+
 #[derive(Clone, Debug, Serialize, Deserialize)]
 struct Replay {
     property: String,
@@ -340,7 +343,7 @@ fn run_case(prop: &str, spec: &MsgSpec, opt: Option<&OptSpec>, r: &mut Rng, tier
                 st.prefilled += 1;
                 nontrivial = true;
             }
-            if nontrivial {
+            if nontrivial && st.nontrivial.len() < DISTINCT_CAP_PER_THREAD {
                 st.nontrivial.insert(mix(spec_hash, hash_bytes(format!("{:?}{:?}", mode, cfg).as_bytes())));
             }
             if prop == "C04" {
@@ -795,7 +798,7 @@ fn main() {
         (
             st.execs + st.frame_checks,
             st.nontrivial.len() as u64,
-            "cases = seeded packets (swarm-configured: sizes, label style, OPT, 0..n entries per section over all typed RDATA variants); for each packet and mode {plain, compressed} the reference bytes from build_bytes_vec* are walked by the independent refdns reader (framing) and every writer configuration is executed: std writer kinds x origins {0,2,k} x {empty, pre-filled}; fixed capacities 0..=len+2 (exhaustive up to the tier's length bound, boundary-biased sample above); the simulated device with a hard error at each write/seek/flush call index and at device byte offsets; transparent short writes / EINTR. An execution is non-trivial when a fault actually fired, the capacity was binding, the origin was non-zero or the storage was pre-filled; distinct = distinct (packet, mode, writer configuration) hashes among those.",
+            "cases = seeded packets (swarm-configured: sizes, label style, OPT, 0..n entries per section over all typed RDATA variants); for each packet and mode {plain, compressed} the reference bytes from build_bytes_vec* are walked by the independent refdns reader (framing) and every writer configuration is executed: std writer kinds x origins {0,2,k} x {empty, pre-filled}; fixed capacities 0..=len+2 (exhaustive up to the tier's length bound, boundary-biased sample above); the simulated device with a hard error at each write/seek/flush call index and at device byte offsets; transparent short writes / EINTR. An execution is non-trivial when a fault actually fired, the capacity was binding, the origin was non-zero or the storage was pre-filled; distinct = distinct (packet, mode, writer configuration) hashes among those, counted exactly up to 2 million per worker thread (32 million in total) and not beyond, so in large batches the number is a lower bound.",
         )
     } else {
         (
